@@ -21,6 +21,8 @@ ASSUMPTIONS = [
 
 
 def run(check):
+    from ..rules_alias import rule_classification_fresh
+    check.run_rule('C16.R1f', lambda c: rule_classification_fresh(c, 'C16.R1'))
     holder = {}
 
     def r1(c):
